@@ -15,6 +15,28 @@ def run(ctx):
         cfgs += [["--leaf", "4096", "--crc", "--batch", "2"]]
     jobs = mc.replay_jobs(ctx, beh, cfgs) + mc.replay_jobs(ctx, big, [["--leaf", "64", "--conc", "8"]], prefix="big")
     results = vlib.parallel(jobs, max_workers=8)
+    # concurrent creators of one repository: every interleaving of their store calls (gate scheduler),
+    # each trace validated call by call against ObjectStore.tla with ExactlyOneWinner (CreateRepoTrace.tla)
+    import os
+    schedules = 0
+    for n in ([2, 3, 4] if ctx.thorough else [2, 3]):
+        tr = os.path.join(ctx.work, "create%d.ndjson" % n)
+        rs = os.path.join(ctx.work, "create%d.json" % n)
+        vlib.run_vh(ctx, ["createrace", "--out", tr, "--res", rs, "--creators", str(n)] + (["--crc"] if ctx.seed % 2 else []))
+        r = vlib.load_result(ctx, rs)
+        schedules += r["behaviours"]
+        t = vlib.run_tlc(ctx, "CreateRepoTrace.tla", "CreateRepoTrace.cfg", workers=1, timeout=600, extra_files={"trace.ndjson": tr})
+        if t["timed_out"] or t["position"] is None:
+            raise vlib.Infra("CreateRepoTrace did not run: " + t["out"][-1500:])
+        pos, total = t["position"]
+        if t["violated"] or pos != total + 1:
+            lines = open(tr).read().splitlines()
+            lo = max(0, pos - 12)
+            vlib.judge(ctx, [dict(sig="createrepo/" + ("more-than-one-winner" if t["violated"] else "trace-rejected"),
+                                  op="createrepo", step=pos, detail="%d concurrent creators; events up to the rejected one" % n,
+                                  got=lines[lo:pos + 1])])
+        ctx.traces_validated += r["behaviours"]
+    ctx.notes["creator_schedules_validated"] = schedules
     return mc.finish(ctx, results,
                      "behaviour = random walk over createrepo (incl. existing names), uploads with overlapping content into "
                      "prefix-related repositories, labels, delete-repo, rename-repo, delete-files (also on bundles of 1001 "
